@@ -101,7 +101,7 @@ func (l *Lexer) NextToken() token.Token {
 		l.skipWhitespace()
 	}
 
-	if l.char == 0 {
+	if l.atEnd() {
 		l.tokenBegins()
 		return l.newToken(token.EOF, "")
 	}
@@ -471,7 +471,7 @@ func (l *Lexer) readString() (string, bool) {
 
 	pos := l.pos
 
-	for l.char != 0 {
+	for !l.atEnd() {
 		prevChar := l.char
 
 		l.readChar()
@@ -481,7 +481,7 @@ func (l *Lexer) readString() (string, bool) {
 		}
 	}
 
-	if l.char == 0 {
+	if l.atEnd() {
 		return l.input[startPos:], false
 	}
 
@@ -529,7 +529,7 @@ func (l *Lexer) readHTML() string {
 	var out bytes.Buffer
 	l.tokenBegins()
 
-	for l.isHTML && l.char != 0 {
+	for l.isHTML && !l.atEnd() {
 		isDirective, escapedDir := l.isDirectiveToken()
 		areBraces, escapedBraces := l.areBracesToken()
 
@@ -591,6 +591,12 @@ func (l *Lexer) readChar() {
 	l.shouldResetCol = l.char == '\n'
 }
 
+// atEnd reports whether the whole input has been read. A zero byte
+// in the input is an ordinary byte, it does not end the input.
+func (l *Lexer) atEnd() bool {
+	return l.pos >= len(l.input)
+}
+
 func (l *Lexer) peekChar() byte {
 	if l.readPos >= len(l.input) {
 		return 0
@@ -608,11 +614,11 @@ func (l *Lexer) skipWhitespace() {
 // skipComment skips everything up to and including the closing "--}}".
 // It returns false when the comment is not closed before the end of input.
 func (l *Lexer) skipComment() bool {
-	for l.char != 0 && !strings.HasPrefix(l.input[l.pos:], "--}}") {
+	for !l.atEnd() && !strings.HasPrefix(l.input[l.pos:], "--}}") {
 		l.readChar()
 	}
 
-	if l.char == 0 {
+	if l.atEnd() {
 		return false
 	}
 
